@@ -6,6 +6,8 @@ import math
 import os
 import sys
 import time
+import zlib
+import random as _random
 from fractions import Fraction
 
 sys.path.insert(0, os.path.dirname(os.path.dirname(os.path.abspath(__file__))))
@@ -42,6 +44,10 @@ TRUSTED = [
     "(exact ring) implies proportionality of the complex operators for all angles is proved (Proof/MatSound, Props/Reflect, "
     "obligations of C01); instantiating PhaseMonoid itself by matrices modulo scalars is the unformalised step",
     "oracle/c10ref.py (reference semantics of parametric circuits) and oracle/dense.py (dense unitaries)",
+    "harness/c10.py VariantReal: the listed alternative entry points / argument forms are taken to be specified as equivalent "
+    "to the plain ones (same model answer); `c += x` rejecting with TypeError is identified with extend raising ValueError",
+    "harness/c10.py restatements used by oracle (C): affine evaluation, one-to-one test for is_trivial_mapping (no opinion when a "
+    "function is the constant 1 alone), derivative = coefficient",
 ]
 
 ONE_Q = ["X", "Y", "Z", "H", "S", "Sdag", "SqrtX", "T", "Identity"]
@@ -131,6 +137,8 @@ def enc_op(op) -> str:
         return f"addParams:{op[1]}:{op[2]}"
     if t == "addGate":
         return f"addGate:{op[1]}:{enc_gate(op[2])}"
+    if t == "insGate":  # add_gate(gate, gate_index) — reference/oracle only (the Lean driver does not know it)
+        return f"insGate:{op[1]}:{op[2]}:{enc_gate(op[3])}"
     if t == "addPar":
         return f"addPar:{op[1]}:{op[2]}:{','.join(map(str, op[3]))}:{','.join(map(str, op[4]))}:{enc_ang(op[5])}"
     if t in ("extend", "plus"):
@@ -152,6 +160,8 @@ def dec_op(s: str):
         return (t, int(f[1]), int(f[2]))
     if t == "addGate":
         return (t, int(f[1]), dec_gate(f[2]))
+    if t == "insGate":
+        return (t, int(f[1]), int(f[2]), dec_gate(f[3]))
     if t == "addPar":
         return (t, int(f[1]), f[2], li(f[3]), li(f[4]), dec_ang(f[5]))
     if t in ("extend", "plus"):
@@ -278,6 +288,9 @@ class Real:
         if t == "addGate":
             self.circs[op[1]].add_gate(self.gate(op[2]))
             return []
+        if t == "insGate":
+            self.circs[op[1]].add_gate(self.gate(op[3]), op[2])
+            return []
         if t == "addPar":
             _, h, pk, ts, ids, ang = op
             c = self.circs[h]
@@ -330,7 +343,9 @@ class Real:
         return type(c).__name__ == "LinearMappedParametricQuantumCircuit"
 
     def obs(self, h):
-        c = self.circs[h]
+        return self.obs_of(self.circs[h])
+
+    def obs_of(self, c):
         pm = c.param_mapping
         self.keep += list(pm.in_params) + list(pm.out_params)
         gs = []
@@ -353,11 +368,11 @@ class Real:
         f = q.split(":")
         t = f[0]
         try:
-            c = self.circs[int(f[1])]
+            c = self.q_obj(self.circs[int(f[1])], q)
             if t == "obs":
-                return self.obs(int(f[1]))
+                return self.obs_of(c)
             if t == "bind":
-                vals = [float(fr(x)) for x in f[2].split(",") if x]
+                vals = self.q_vals([float(fr(x)) for x in f[2].split(",") if x], q)
                 return ["ok", [canon_real_gate(g) for g in c.bind_parameters(vals).gates]]
             if t == "bindDict":
                 d = {}
@@ -367,7 +382,7 @@ class Real:
                         d[self.ref(dec_ref(r))] = float(fr(v))
                 return ["ok", [canon_real_gate(g) for g in c.bind_parameters_by_dict(d).gates]]
             if t == "seqmap":
-                vals = [float(fr(x)) for x in f[2].split(",") if x]
+                vals = self.q_vals([float(fr(x)) for x in f[2].split(",") if x], q)
                 return ["ok", [rat_s(Fraction(x)) for x in c.param_mapping.seq_mapper(vals)]]
             if t == "trivial":
                 return ["ok", bool(c.has_trivial_parameter_mapping)]
@@ -376,6 +391,254 @@ class Real:
         except Exception as e:  # noqa: BLE001
             return ["err", type(e).__name__]
         raise InfraError(f"unknown query {q}")
+
+    # hooks (argument forms / entry points), overridden by VariantReal
+    def q_obj(self, c, q):
+        return c
+
+    def q_vals(self, vals, q):
+        return vals
+
+    def final_issues(self):
+        return []
+
+
+NAMED_ADDERS = {"X", "Y", "Z", "H", "S", "Sdag", "SqrtX", "T", "Identity"}
+
+
+class VariantReal(Real):
+    """Same operation language and the same specified meaning, but every operation / query goes through a
+    (deterministically, per `vseed` and op text) chosen *equivalent* public entry point or argument form:
+    deprecated aliases and explicit optional arguments of the constructors, add_parameter one at a time, add_<Name>_gate
+    / add_gate with explicit (None / end) index, keyword arguments, Mapping / tuple / numpy argument containers, integer
+    coefficients and values, `+=`, combine(), frozen (immutable) operands on either side of + / extend / transpilers,
+    queries on freeze() / get_mutable_copy() of the circuit.  A mutation may be redirected to get_mutable_copy() of the
+    circuit (which then replaces it in the store); the replaced original must stay as it was (`final_issues`)."""
+
+    def __init__(self, vseed):
+        super().__init__()
+        self.vseed = vseed
+        self.shadows = []
+        self.used = []
+
+    def _vr(self, tag):
+        return _random.Random(zlib.crc32(f"{self.vseed}|{tag}".encode()))
+
+    def note(self, what):
+        self.used.append(what)
+
+    def target(self, h, r):
+        """the circuit a mutating operation acts on"""
+        c = self.circs[h]
+        x = r.random()
+        if x < 0.15:
+            snap = self.snap_of(c)
+            m = c.get_mutable_copy()
+            self.shadows.append((h, c, snap, "get_mutable_copy() was taken and only the copy was modified afterwards, but the original"))
+            self.circs[h] = m
+            self.note("get_mutable_copy-then-mutate")
+            return m
+        if x < 0.3:
+            fz = c.freeze()
+            self.shadows.append((h, fz, self.snap_of(fz), "freeze() was taken before the circuit was modified further, but the frozen circuit"))
+            self.note("freeze-then-mutate")
+        return c
+
+    def frozen(self, c, r, p=0.4):
+        if r.random() < p:
+            self.note("frozen-operand")
+            return c.freeze()
+        return c
+
+    def src(self, s, r=None):
+        from quri_parts.circuit import QuantumCircuit
+
+        r = r or self._vr("src")
+        if s[0] == "h":
+            return self.frozen(self.circs[s[1]], r)
+        if s[0] == "L":
+            gs = [self.gate(g) for g in s[1]]
+            if r.random() < 0.4:
+                self.note("gate-tuple")
+                return tuple(gs)
+            return gs
+        qc = QuantumCircuit(s[1], gates=[self.gate(g) for g in s[2]])
+        return self.frozen(qc, r)
+
+    def _apply(self, op):
+        import quri_parts.circuit as QC
+
+        t = op[0]
+        r = self._vr(enc_op(op))
+        if t in ("newL", "newP"):
+            cls = {"newL": [QC.LinearMappedParametricQuantumCircuit, QC.LinearMappedUnboundParametricQuantumCircuit],
+                   "newP": [QC.ParametricQuantumCircuit, QC.UnboundParametricQuantumCircuit]}[t][r.randrange(2)]
+            k = r.randrange(3)
+            self.note(f"ctor-form{k}")
+            self.circs.append(cls(op[1]) if k == 0 else cls(op[1], 0) if k == 1 else cls(qubit_count=op[1], cbit_count=0))
+            return []
+        if t == "addParams":
+            c = self.target(op[1], r)
+            if op[2] >= 1 and r.random() < 0.6:
+                self.note("add_parameter")
+                new = [c.add_parameter("p") for _ in range(op[2])]
+            else:
+                new = list(c.add_parameters(*["p" for _ in range(op[2])]))
+            self.keep += new
+            return new
+        if t == "addGate":
+            c = self.target(op[1], r)
+            _, kind, ctrl, tgt, ps, ids = op[2]
+            x = r.random()
+            angle = [float(v) if k == "v" else HALF_PI[v] for k, v in ps]
+            meth = getattr(c, f"add_{kind}_gate", None)
+            if x < 0.45 and meth is not None:
+                self.note("named-adder")
+                if kind in NAMED_ADDERS:
+                    meth(tgt[0])
+                elif kind in ("RX", "RY", "RZ"):
+                    meth(tgt[0], angle[0])
+                elif kind in ("CNOT", "CZ"):
+                    meth(ctrl[0], tgt[0])
+                elif kind == "SWAP":
+                    meth(tgt[0], tgt[1])
+                elif kind == "Pauli":
+                    meth(list(tgt), list(ids))
+                elif kind == "PauliRotation":
+                    meth(tuple(tgt), tuple(ids), angle[0])
+                else:
+                    c.add_gate(self.gate(op[2]))
+            elif x < 0.6:
+                self.note("add_gate-index-None")
+                c.add_gate(self.gate(op[2]), None)
+            elif x < 0.8:
+                self.note("add_gate-index-end")
+                c.add_gate(self.gate(op[2]), gate_index=len(c.primitive_circuit().gates))
+            else:
+                c.add_gate(self.gate(op[2]))
+            return []
+        if t == "addPar":
+            from types import MappingProxyType
+            from collections import OrderedDict
+
+            _, h, pk, ts, ids, ang = op
+            c = self.target(h, r)
+            name = {"rx": "add_ParametricRX_gate", "ry": "add_ParametricRY_gate", "rz": "add_ParametricRZ_gate",
+                    "prot": "add_ParametricPauliRotation_gate"}[pk]
+            meth = getattr(c, name)
+            lin = self.is_lin(c)
+            kw = lin and r.random() < 0.3
+            if pk == "prot":
+                cont = tuple if r.random() < 0.5 else list
+                args, kwargs = ([], {"qubit_indices": cont(ts), "pauli_ids": cont(ids)}) if kw else ([cont(ts), cont(ids)], {})
+            else:
+                args, kwargs = ([], {"qubit_index": ts[0]}) if kw or (not lin and r.random() < 0.3) else ([ts[0]], {})
+            if kw:
+                self.note("keyword-arguments")
+            if ang is None:
+                p = meth(*args, **kwargs)
+                self.keep.append(p)
+                return [p]
+            if ang[0] == "P":
+                a, d = self.ref(ang[1]), None
+            else:
+                d = OrderedDict() if r.random() < 0.3 else {}
+                ints = r.random() < 0.5
+                for rf, coef in ang[1]:
+                    d[self.ref(rf)] = int(coef) if (ints and coef.denominator == 1) else float(coef)
+                a = d
+                if r.random() < 0.35:
+                    self.note("MappingProxy-angle")
+                    a = MappingProxyType(d)
+            try:
+                if kw:
+                    meth(**kwargs, angle=a)
+                else:
+                    meth(*args, a)
+            finally:
+                if d is not None:
+                    d.clear()
+            self.keep += list(c.param_mapping.out_params[-1:])
+            return []
+        if t == "extend":
+            c = self.target(op[1], r)
+            src = self.src(op[2], r)
+            s0 = op[2]
+            if self.is_lin(c) and r.random() < 0.4 and (s0[0] == "L" or (s0[0] == "h" and self.is_lin(self.circs[s0[1]]))):
+                self.note("iadd")
+                try:
+                    c += src
+                except TypeError:
+                    # `+=` turns the ValueError of extend into NotImplemented, hence (no reflected fallback for these
+                    # operands) a TypeError: the same rejection
+                    raise ValueError("+= rejected")
+            else:
+                c.extend(src)
+            return []
+        if t == "plus":
+            c = self.frozen(self.circs[op[1]], r)
+            src = self.src(op[2], r)
+            res = NotImplemented
+            if self.is_lin(self.circs[op[1]]) and r.random() < 0.3:
+                self.note("combine")
+                res = c.combine(src)
+            if res is NotImplemented:
+                res = c + src
+            self.circs.append(res)
+            return []
+        if t == "rplus":
+            res = self.src(op[1], r) + self.frozen(self.circs[op[2]], r)
+            self.circs.append(res)
+            return []
+        if t == "tr":
+            res = self.transpiler(op[1], op[3])(self.frozen(self.circs[op[2]], r))
+            self.keep += list(res.param_mapping.out_params)
+            self.circs.append(res)
+            return []
+        return super()._apply(op)
+
+    def is_lin(self, c):
+        return type(c).__name__ in ("LinearMappedParametricQuantumCircuit", "ImmutableLinearMappedParametricQuantumCircuit")
+
+    def q_obj(self, c, q):
+        x = self._vr("obj|" + q).random()
+        if x < 0.35:
+            self.note("query-on-freeze")
+            return c.freeze()
+        if x < 0.55:
+            self.note("query-on-mutable-copy")
+            return c.get_mutable_copy()
+        return c
+
+    def q_vals(self, vals, q):
+        import numpy as np
+
+        x = self._vr("vals|" + q).random()
+        if x < 0.25:
+            return tuple(vals)
+        if x < 0.5:
+            self.note("numpy-values")
+            return np.array(vals, dtype=float)
+        if x < 0.7 and all(float(v).is_integer() for v in vals):
+            self.note("int-values")
+            return [int(v) for v in vals]
+        return vals
+
+    def snap_of(self, c):
+        """observation with the (unordered) mapping dictionary in a canonical order"""
+        o = self.obs_of(c)
+        return o[:5] + [sorted(o[5], key=repr)]
+
+    def final_issues(self):
+        out = []
+        for h, old, snap, what in self.shadows:
+            try:
+                now = self.snap_of(old)
+            except Exception as e:  # noqa: BLE001
+                now = ["err", type(e).__name__]
+            if now != snap:
+                out.append(f"circuit {h}: {what} changed from {snap} to {now}")
+        return out
 
 
 def canon_param(x: float):
@@ -510,7 +773,12 @@ def gen_history(rng, real: Real, n_ops: int, mode="full"):
         if r < 0.14 and lin:
             push(("addParams", h, rng.choice([1, 1, 2, 2, 3, 0])))
         elif r < 0.28:
-            push(("addGate", h, rnd_fixed_gate(rng, n, allow_bad=not oracle)))
+            if oracle and rng.random() < 0.4:
+                # add_gate(gate, gate_index): any position of the present gate list (sometimes one past the end: rejected)
+                ng = len(c.primitive_circuit().gates)
+                push(("insGate", h, rng.randint(0, ng + (1 if rng.random() < 0.1 else 0)), rnd_fixed_gate(rng, n)))
+            else:
+                push(("addGate", h, rnd_fixed_gate(rng, n, allow_bad=not oracle)))
         elif r < 0.56:
             pk = rng.choice(["rx", "ry", "rz", "prot"])
             if pk == "prot":
@@ -635,9 +903,9 @@ def request_line(op_strs, queries):
     return " | ".join(lean_op(o) for o in op_strs) + " || " + " | ".join(queries)
 
 
-def real_run(op_strs, queries):
-    """replay a history given as strings on a fresh real interpreter"""
-    real = Real()
+def real_run(op_strs, queries, vseed=None):
+    """replay a history given as strings on a fresh real interpreter (`vseed`: through equivalent entry points)"""
+    real = Real() if vseed is None else VariantReal(vseed)
     opres = []
     for s in op_strs:
         op = dec_op(s)
@@ -661,18 +929,25 @@ def first_diff(a, b, path=""):
     return None if a == b else f"{path}: {a!r} vs {b!r}"
 
 
+KEY_COPY = "copy-or-frozen-circuit-aliases-original"
+
+
 def compare_batch(ctx: Ctx, batch, what="history"):
-    """batch: list of (op_strs, queries); runs the Lean driver once and the real code per history"""
+    """batch: list of (op_strs, queries[, vseed]); runs the Lean driver once (per distinct request) and the real code per
+    entry — directly, or (vseed given) through equivalent public entry points / argument forms"""
     if not batch:
         return
-    lines = [request_line(o, q) for o, q in batch]
-    resp = ctx.driver(lines, entry=ENTRY)
-    for (op_strs, queries), line, r in zip(batch, lines, resp):
+    batch = [(b[0], b[1], b[2] if len(b) > 2 else None) for b in batch]
+    lines = [request_line(o, q) for o, q, _ in batch]
+    uniq = list(dict.fromkeys(lines))
+    resp_of = dict(zip(uniq, ctx.driver(uniq, entry=ENTRY)))
+    for (op_strs, queries, vseed), line in zip(batch, lines):
+        r = resp_of[line]
         try:
             mj = json.loads(r)
         except json.JSONDecodeError:
             raise InfraError(f"driver output is not JSON: {r[:200]}")
-        _, ropres, rqres = real_run(op_strs, queries)
+        real, ropres, rqres = real_run(op_strs, queries, vseed)
         rc = canon_response(ropres, rqres, queries, False)
         if mj == "bad-request" or any(x == "bad-query" for x in (mj[1] if isinstance(mj, list) else [])):
             # a parameter / circuit reference of the history does not resolve in the model's store: the stores have
@@ -691,29 +966,37 @@ def compare_batch(ctx: Ctx, batch, what="history"):
                 ctx.count("query_outcome", f"{q.split(':')[0]}:{x[1]}")
             else:
                 ctx.count("query_outcome", f"{q.split(':')[0]}:ok")
+        for u in getattr(real, "used", []):
+            ctx.count("entry_point_variant", u)
         nontrivial = any(k in ("extend", "plus", "rplus", "tr") for k in kinds) and any(k == "addPar" for k in kinds)
-        ctx.case(line, nontrivial, sample={"request": line[:400], "model": r[:300]})
+        ctx.case(line if vseed is None else f"{line} ## variant {vseed}", nontrivial,
+                 sample={"request": line[:400], "model": r[:300]})
+        for issue in real.final_issues():
+            ctx.witness(KEY_COPY, issue[:900], {"ops": op_strs, "entry_point_variant_seed": vseed}, None)
         d = first_diff(rc, mc)
         if d:
-            small_o, small_q = shrink(ctx, op_strs, queries) if len(ctx.disagreements) < 3 else (op_strs, queries)
-            ctx.disagree(what, {"request": request_line(small_o, small_q), "ops": small_o, "queries": small_q},
+            small_o, small_q = shrink(ctx, op_strs, queries, vseed) if len(ctx.disagreements) < 3 else (op_strs, queries)
+            ctx.disagree(what if vseed is None else what + " (through equivalent entry points / argument forms)",
+                         {"request": request_line(small_o, small_q), "ops": small_o, "queries": small_q,
+                          "entry_point_variant_seed": vseed,
+                          "forms_used": sorted(set(getattr(real_run(small_o, small_q, vseed)[0], "used", [])))},
                          f"real differs at {d}"[:600], r[:600])
 
 
-def disagrees(ctx, op_strs, queries):
+def disagrees(ctx, op_strs, queries, vseed=None):
     try:
         line = request_line(op_strs, queries)
         r = ctx.driver([line], entry=ENTRY)[0]
         mj = json.loads(r)
         if not isinstance(mj, list) or any(x == "bad-query" for x in mj[1]):
             return False
-        _, ropres, rqres = real_run(op_strs, queries)
+        _, ropres, rqres = real_run(op_strs, queries, vseed)
         return first_diff(canon_response(ropres, rqres, queries, False), canon_response(mj[0], mj[1], queries, True)) is not None
     except Exception:  # noqa: BLE001 — a shrink candidate that is not a valid history
         return False
 
 
-def shrink(ctx, op_strs, queries, budget=14):
+def shrink(ctx, op_strs, queries, vseed=None, budget=14):
     """greedy delta-debugging on queries then ops (bounded number of driver calls)"""
     ops, qs = list(op_strs), list(queries)
     calls = 0
@@ -725,7 +1008,7 @@ def shrink(ctx, op_strs, queries, budget=14):
                 break
             cand = cur[:i] + cur[i + 1:]
             calls += 1
-            if (seq == "q" and cand and disagrees(ctx, ops, cand)) or (seq == "o" and disagrees(ctx, cand, qs)):
+            if (seq == "q" and cand and disagrees(ctx, ops, cand, vseed)) or (seq == "o" and disagrees(ctx, cand, qs, vseed)):
                 if seq == "q":
                     qs = cand
                 else:
@@ -763,9 +1046,13 @@ def correspond(ctx: Ctx):
             if fn.endswith(".json"):
                 d = json.load(open(os.path.join(corpus_dir, fn)))
                 batch.append((d["ops"], d["queries"]))
+                for v in range(3):
+                    batch.append((d["ops"], d["queries"], v))
                 ctx.count("source", "corpus")
     for o, q in FIXED_HISTORIES:
         batch.append((list(o), list(q)))
+        for v in range(3):
+            batch.append((list(o), list(q), v))
         ctx.count("source", "fixed")
     N = ctx.n(260, 6000)
     for i in range(N):
@@ -774,6 +1061,10 @@ def correspond(ctx: Ctx):
         qs = gen_queries(rng, real)
         batch.append(([enc_op(o) for o in ops], qs))
         ctx.count("source", "random")
+        if i % 5 != 4:
+            # the same history through equivalent public entry points / argument forms (same model answer)
+            batch.append(([enc_op(o) for o in ops], qs, rng.randrange(1 << 30)))
+            ctx.count("source", "random-variant")
         if len(batch) >= 400:
             compare_batch(ctx, batch)
             batch = []
@@ -823,14 +1114,143 @@ def oracle_bind(ctx: Ctx, budget_s: float, min_cases: int):
             break
         real = Real()
         ops, res = gen_history(rng, real, rng.randint(3, 12), mode="oracle")
-        check_against_reference(ctx, c10ref, ops, rng)
+        check_against_reference(ctx, c10ref, ops, rng, vseed=rng.randrange(1 << 30) if n % 5 < 2 else None)
     ctx.extra.setdefault("oracle", {})["bind_histories"] = n
     ctx.evaluations += n
 
 
-def check_against_reference(ctx: Ctx, c10ref, ops, rng, report=True):
-    """replays `ops` on a fresh real interpreter and on the reference; returns a list of (key, what, detail)"""
-    real = Real()
+def _value_form(rng, vals):
+    """the same parameter values in another container / number type"""
+    import numpy as np
+
+    x = rng.random()
+    if x < 0.25:
+        return tuple(vals), "tuple"
+    if x < 0.5:
+        return np.array(vals, dtype=float), "numpy array"
+    if x < 0.65 and all(float(v).is_integer() for v in vals):
+        return [int(v) for v in vals], "list of int"
+    return list(vals), "list"
+
+
+def _object_form(rng, c):
+    """the circuit itself or an object that is specified to denote the same circuit"""
+    x = rng.random()
+    if x < 0.3:
+        return c.freeze(), "c.freeze()"
+    if x < 0.45:
+        return c.get_mutable_copy(), "c.get_mutable_copy()"
+    if x < 0.55:
+        return c.freeze().get_mutable_copy().freeze(), "c.freeze().get_mutable_copy().freeze()"
+    if x < 0.65:
+        return c.freeze().freeze(), "c.freeze().freeze()"
+    return c, "c"
+
+
+def check_circuit(real, ref, ident, h, rng, op_strs, full=True):
+    """the real circuit `h` against the reference circuit `h`, at the present point of the history: parameter list, gate
+    list, three bindings (plain list; *other* values through another container / object / bind_parameters_by_dict; the first
+    values again — a result remembered per object or per call would show), depth; `full` adds the mapping rules"""
+    found = []
+    c, rc = real.circs[h], ref.circs[h]
+    lin = real.is_lin(c)
+    if lin:
+        inp = list(c.param_mapping.in_params)
+        mapped = [ident.get(p) for p in inp]
+        if None in mapped:
+            return [("in-params-unknown", f"circuit {h}: in_params contains a parameter nobody created", op_strs)]
+        dedup = list(dict.fromkeys(mapped))
+        if dedup != rc.params:
+            return [("in-params-order", f"circuit {h}: in_params {mapped} but the parameters in order of first "
+                     f"appearance are {rc.params}", op_strs)]
+        if len(mapped) != len(dedup):
+            found.append((KEY_F6, f"circuit {h}: parameter_count {len(mapped)} for {len(dedup)} distinct parameters "
+                          f"(in_params as reference ids: {mapped})", op_strs))
+        order = mapped
+    else:
+        if c.parameter_count != len(rc.params):
+            return [("plain-count", f"circuit {h}: parameter_count {c.parameter_count} vs {len(rc.params)}", op_strs)]
+        order = list(rc.params)
+        mapped = dedup = order
+
+    def draw():
+        vals = {p: rnd_frac(rng) for p in rc.params}
+        return vals, [float(vals[p]) for p in order]
+
+    def want_of(vals):
+        return [["f", g[1], list(g[2]), list(g[3]), [("v" + rat_s(x[1])) if x[0] == "v" else f"h{x[1]}" for x in g[4]], list(g[5])]
+                for g in ref.bind(h, vals)]
+
+    # the unbound gate list (`gates` property) — of the circuit and of its frozen form
+    want_gates = [[g[1][1], list(g[1][2]), list(g[1][3]), list(g[1][5])] if g[0] == "f"
+                  else ["Parametric" + BOUND[g[1]], [], list(g[2]), list(g[3])] for g in rc.gates]
+    for label, get in (("c.gates", lambda: c.gates), ("c.freeze().gates", lambda: c.freeze().gates)):
+        try:
+            got_gates = [[g.name, list(g.control_indices), list(g.target_indices), list(g.pauli_ids)] for g in get()]
+        except Exception as e:  # noqa: BLE001
+            got_gates = f"raised {type(e).__name__}"
+        if got_gates != want_gates:
+            found.append(("gates-property", f"circuit {h}: {label} = {got_gates} but the circuit was built as {want_gates}", op_strs))
+            return found
+
+    vals, real_vals = draw()
+    want = want_of(vals)
+    try:
+        bound = c.bind_parameters(real_vals)
+        got = [canon_real_gate(g) for g in bound.gates]
+    except Exception as e:  # noqa: BLE001
+        found.append(("bind-raises", f"circuit {h}: bind_parameters({real_vals}) raised {type(e).__name__}", op_strs))
+        return found
+    if got != want:
+        found.append(("bind-spec", f"circuit {h}: bind_parameters({real_vals}) = {got} but every parametric gate should carry "
+                      f"its function's value: {want}", op_strs))
+        return found
+    try:
+        dp = (c.depth, bound.depth, c.freeze().depth)
+        if len(set(dp)) != 1:
+            found.append(("depth", f"circuit {h}: depth of the circuit / its binding / its frozen form differ: {dp}", op_strs))
+    except Exception as e:  # noqa: BLE001
+        found.append(("depth", f"circuit {h}: depth raised {type(e).__name__}", op_strs))
+
+    # other values, through another argument form / object / entry point
+    vals2, real_vals2 = draw()
+    want2 = want_of(vals2)
+    try:
+        obj, oform = _object_form(rng, c)
+        if rng.random() < 0.35:
+            d = dict(zip(list(obj.param_mapping.in_params), real_vals2))
+            got2 = [canon_real_gate(g) for g in obj.bind_parameters_by_dict(d).gates]
+            form = f"{oform}.bind_parameters_by_dict({{in_params[i]: v[i]}}), v = {real_vals2}"
+        else:
+            v2, vform = _value_form(rng, real_vals2)
+            got2 = [canon_real_gate(g) for g in obj.bind_parameters(v2).gates]
+            form = f"{oform}.bind_parameters({vform} {real_vals2})"
+    except Exception as e:  # noqa: BLE001
+        got2, form = f"raised {type(e).__name__}", "second binding"
+    if got2 != want2:
+        found.append(("bind-spec-form", f"circuit {h}: after bind_parameters({real_vals}), {form} = {got2} but every parametric "
+                      f"gate should carry its function's value: {want2}", op_strs))
+        return found
+    try:
+        got3 = [canon_real_gate(g) for g in c.bind_parameters(real_vals).gates]
+        got1 = [canon_real_gate(g) for g in bound.gates]
+    except Exception as e:  # noqa: BLE001
+        got3 = got1 = f"raised {type(e).__name__}"
+    if got3 != want or got1 != want:
+        found.append(("bind-repeat", f"circuit {h}: binding {real_vals}, then {real_vals2}, then {real_vals} again gives {got3} "
+                      f"(first result now reads {got1}); expected {want} both times", op_strs))
+        return found
+    if full and lin and len(mapped) == len(dedup):
+        found += mapping_rules(h, c, rc, vals, real_vals, want, op_strs)
+    return found
+
+
+def check_against_reference(ctx: Ctx, c10ref, ops, rng, report=True, probe_p=0.3, vseed=None):
+    """replays `ops` on a fresh real interpreter (`vseed`: through equivalent public entry points / argument forms) and on
+    the reference; returns a list of (key, what, detail).
+    After a successful operation the touched circuit is (with probability probe_p) checked at once — bindings interleaved
+    with later mutations — and every circuit is checked at the end."""
+    real = Real() if vseed is None else VariantReal(vseed)
     ref = c10ref.Ref()
     ident = {}  # real Parameter (library equality) -> reference parameter
     found = []
@@ -839,7 +1259,10 @@ def check_against_reference(ctx: Ctx, c10ref, ops, rng, report=True):
     def resolve(r):
         if r == "C":
             return "C"
-        return ident.get(real.ref(r), ("?", r))
+        try:
+            return ident.get(real.ref(r), ("?", r))
+        except Exception:  # noqa: BLE001 — the real store no longer has that parameter: the operation will fail there too
+            return ("?", r)
 
     for k, op in enumerate(ops):
         refs = None
@@ -859,51 +1282,29 @@ def check_against_reference(ctx: Ctx, c10ref, ops, rng, report=True):
         if st == "ok":
             for rp, p in zip(v, new):
                 ident[rp] = p
+            if rng.random() < probe_p and len(real.circs) == len(ref.circs):
+                h = op[1] if op[0] in ("addParams", "addGate", "insGate", "addPar", "extend") else len(real.circs) - 1
+                step = check_circuit(real, ref, ident, h, rng, op_strs[: k + 1], full=False)
+                step = [f for f in step if f[0] != KEY_F6]  # reported once, at the end
+                if step:
+                    found += step
+                    break
         else:
             if [c.parameter_count for c in real.circs] != before:
                 found.append(("failed-op-mutates", f"op {k} `{op_strs[k]}` raised {v} but changed a circuit", op_strs[: k + 1]))
                 break
     else:
-        for h, (c, rc) in enumerate(zip(real.circs, ref.circs)):
-            if real.is_lin(c):
-                inp = list(c.param_mapping.in_params)
-                mapped = [ident.get(p) for p in inp]
-                if None in mapped:
-                    found.append(("in-params-unknown", f"circuit {h}: in_params contains a parameter nobody created", op_strs))
-                    continue
-                dedup = list(dict.fromkeys(mapped))
-                if dedup != rc.params:
-                    found.append(("in-params-order", f"circuit {h}: in_params {mapped} but the parameters in order of first "
-                                  f"appearance are {rc.params}", op_strs))
-                    continue
-                if len(mapped) != len(dedup):
-                    found.append((KEY_F6, f"circuit {h}: parameter_count {len(mapped)} for {len(dedup)} distinct parameters "
-                                  f"(in_params as reference ids: {mapped})", op_strs))
-                vals = {p: rnd_frac(rng) for p in rc.params}
-                real_vals = [float(vals[p]) for p in mapped]
-            else:
-                vals = {p: rnd_frac(rng) for p in rc.params}
-                real_vals = [float(vals[p]) for p in rc.params]
-                if c.parameter_count != len(rc.params):
-                    found.append(("plain-count", f"circuit {h}: parameter_count {c.parameter_count} vs {len(rc.params)}", op_strs))
-                    continue
-            try:
-                got = [canon_real_gate(g) for g in c.bind_parameters(real_vals).gates]
-            except Exception as e:  # noqa: BLE001
-                found.append(("bind-raises", f"circuit {h}: bind_parameters({real_vals}) raised {type(e).__name__}", op_strs))
-                continue
-            want = [["f", g[1], list(g[2]), list(g[3]), [("v" + rat_s(x[1])) if x[0] == "v" else f"h{x[1]}" for x in g[4]], list(g[5])]
-                    for g in ref.bind(h, vals)]
-            if got != want:
-                found.append(("bind-spec", f"circuit {h}: bind_parameters({real_vals}) = {got} but every parametric gate should carry "
-                              f"its function's value: {want}", op_strs))
-                continue
-            if not real.is_lin(c) or len(mapped) != len(dedup):
-                continue
-            found += mapping_rules(h, c, rc, vals, real_vals, want, op_strs)
+        for h in range(min(len(real.circs), len(ref.circs))):
+            found += check_circuit(real, ref, ident, h, rng, op_strs, full=True)
+    for issue in real.final_issues():
+        found.append((KEY_COPY, issue[:900], op_strs))
     if report:
         for key, what, hist in found:
-            ctx.witness(key, what, {"ops": hist}, None)
+            inp = {"ops": hist}
+            if vseed is not None:
+                inp["entry_point_variant_seed"] = vseed
+                inp["forms_used"] = sorted(set(real.used))
+            ctx.witness(key, what, inp, None)
     return found
 
 
@@ -953,8 +1354,105 @@ def mapping_rules(h, c, rc, vals, real_vals, want, op_strs):
     return out
 
 
+GATESETS = [
+    ("H", "RZ", "CNOT"), ("RX", "RY", "RZ", "CZ"), ("SqrtX", "RZ", "CNOT"), ("X", "SqrtX", "RZ", "CNOT"),
+    ("H", "S", "T", "RZ", "CNOT", "Identity"), ("RX", "RZ", "CNOT"), ("RY", "RZ", "CZ"), ("RX", "RY", "CNOT"),
+]
+
+
+def transpiler_pairs():
+    """name -> (factory of the parametric transpiler T̂, factory of its non-parametric counterpart T, T may reject a circuit)"""
+    import quri_parts.circuit.transpile as T
+    import quri_parts.circuit.transpile.gateset as G
+
+    P = T.ParametricTranspiler
+    pairs = {}
+    missing = []
+
+    def reg(name, mk_hat, mk, rejects=False):
+        try:  # a renamed / removed class must not crash the check: it is reported and the pair is left out
+            mk_hat(), mk()
+            pairs[name] = (mk_hat, mk, rejects)
+        except AttributeError as e:
+            missing.append(f"{name}: {e}")
+
+    reg("rx", lambda: T.ParametricRX2RZHTranspiler(), lambda: T.RX2RZHTranspiler())
+    reg("ry", lambda: T.ParametricRY2RZHTranspiler(), lambda: T.RY2RZHTranspiler())
+    reg("pauli", lambda: T.ParametricPauliRotationDecomposeTranspiler(), lambda: T.PauliRotationDecomposeTranspiler())
+
+    def wrap(name, mk, rejects=False):
+        reg("w." + name, (lambda mk=mk: P(mk())), mk, rejects)
+
+    wrap("rx2rzh", lambda: T.RX2RZHTranspiler())
+    wrap("ry2rzh", lambda: T.RY2RZHTranspiler())
+    wrap("pauliRot", lambda: T.PauliRotationDecomposeTranspiler())
+    wrap("pauli", lambda: T.PauliDecomposeTranspiler())
+    wrap("idInsert", lambda: T.IdentityInsertionTranspiler())
+    wrap("idElim", lambda: T.IdentityEliminationTranspiler())
+    wrap("RZSet", lambda: T.RZSetTranspiler())
+    wrap("fuse", lambda: T.FuseRotationTranspiler())
+    # the circuit transpilers of transpile/gateset.py (and the generic combinators of transpile/transpiler.py) as wrapped
+    # transpilers: "wrapper of any circuit transpiler"
+    wrap("rz2rxry", lambda: T.RZ2RXRYTranspiler())
+    wrap("ry2rxrz", lambda: T.RY2RXRZTranspiler())
+    wrap("rx2ryrz", lambda: T.RX2RYRZTranspiler())
+    wrap("identity", lambda: G.IdentityTranspiler())
+    wrap("seq", lambda: T.SequentialTranspiler([T.RX2RZHTranspiler(), T.RY2RZHTranspiler()]))
+    wrap("par", lambda: T.ParallelDecomposer([T.RX2RZHTranspiler(), T.RY2RZHTranspiler(), T.PauliRotationDecomposeTranspiler()]))
+    wrap("cliff(H,S)", lambda: T.CliffordConversionTranspiler(["H", "S"]))
+    wrap("cliff(SqrtX,S,Z)", lambda: T.CliffordConversionTranspiler(("SqrtX", "S", "Z")))
+    wrap("cliff(X,SqrtY)", lambda: T.CliffordConversionTranspiler({"X", "SqrtY"}))
+    wrap("rot(RZ)", lambda: T.RotationConversionTranspiler(["RZ"]), True)
+    wrap("rot(RZ|SqrtX)", lambda: T.RotationConversionTranspiler(["RZ"], ["SqrtX"]), True)
+    wrap("rot(RX,RZ)", lambda: T.RotationConversionTranspiler(("RX", "RZ")), True)
+    wrap("rot(RX,RY)", lambda: T.RotationConversionTranspiler({"RX", "RY"}), True)
+    wrap("rot(RY,RZ)", lambda: T.RotationConversionTranspiler(["RY", "RZ"], ["H"]), True)
+    wrap("rot(RX)", lambda: T.RotationConversionTranspiler(["RX"]), True)
+    for gs in GATESETS:
+        wrap("gateset(" + ",".join(gs) + ")", lambda gs=gs: T.GateSetConversionTranspiler(gs), True)
+    wrap("gateset(RX,CNOT)", lambda: T.GateSetConversionTranspiler(["RX", "CNOT"]), True)  # not universal here: may reject
+    wrap("gateset(H,RZ,CNOT;validation=False)", lambda: T.GateSetConversionTranspiler(["H", "RZ", "CNOT"], 1.0e-9, False))
+    wrap("gateset(RX,RY,RZ,CZ;epsilon=,validation=)", lambda: T.GateSetConversionTranspiler(
+        {"RX", "RY", "RZ", "CZ"}, epsilon=1.0e-10, validation=True), True)
+    return pairs, missing
+
+
+def fixed_segments(c):
+    """maximal runs of non-parametric gates of a parametric circuit (what ParametricTranspiler hands to the wrapped transpiler)"""
+    from quri_parts.circuit import QuantumCircuit
+
+    segs, cur = [], []
+    for g, p in c.primitive_circuit().gates_and_params:
+        if p is None:
+            cur.append(g)
+        elif cur:
+            segs.append(cur)
+            cur = []
+    if cur:
+        segs.append(cur)
+    return [QuantumCircuit(c.qubit_count, gates=gs) for gs in segs]
+
+
+def gate_functions(real, c):
+    """the linear function of every parametric gate, in gate order, as {parameter id | 'C': coefficient}"""
+    pm = c.param_mapping
+    mp = pm.mapping
+    out = []
+    for g, p in c.primitive_circuit().gates_and_params:
+        if p is None:
+            continue
+        f = mp[p]
+        if hasattr(f, "items"):
+            out.append({repr(real.pid(q)): Fraction(x) for q, x in f.items() if x != 0})
+        else:
+            out.append({repr(real.pid(f)): Fraction(1)})
+    return out
+
+
 def oracle_transpile(ctx: Ctx, budget_s: float, min_cases: int):
-    """(B) transpile-then-bind vs bind-then-transpile as unitaries (up to phase), in_params kept (objects, order)"""
+    """(B) transpile-then-bind vs bind-then-transpile as unitaries (up to phase), in_params kept (objects, order), every
+    parametric gate keeps its linear function, the input circuit is left as it was.  Transpiler objects are created once
+    and reused for all cases (state carried between calls); inputs are also given frozen."""
     import quri_parts.circuit.transpile as T
     from oracle import dense
     from quri_parts.circuit import QuantumCircuit
@@ -963,56 +1461,120 @@ def oracle_transpile(ctx: Ctx, budget_s: float, min_cases: int):
     t0 = time.time()
     n = 0
     worst = 0.0
-    pairs = {
-        "rx": (lambda r: r.ptrans("rx"), T.RX2RZHTranspiler),
-        "ry": (lambda r: r.ptrans("ry"), T.RY2RZHTranspiler),
-        "pauli": (lambda r: r.ptrans("pauli"), T.PauliRotationDecomposeTranspiler),
-        "w.rx2rzh": (lambda r: r.ptrans("w.rx2rzh"), T.RX2RZHTranspiler),
-        "w.ry2rzh": (lambda r: r.ptrans("w.ry2rzh"), T.RY2RZHTranspiler),
-        "w.pauliRot": (lambda r: r.ptrans("w.pauliRot"), T.PauliRotationDecomposeTranspiler),
-        "w.idInsert": (lambda r: r.ptrans("w.idInsert"), T.IdentityInsertionTranspiler),
-        "w.RZSet": (lambda r: T.ParametricTranspiler(T.RZSetTranspiler()), T.RZSetTranspiler),
-        "w.fuse": (lambda r: T.ParametricTranspiler(T.FuseRotationTranspiler()), T.FuseRotationTranspiler),
-    }
+    pairs, missing = transpiler_pairs()
+    for m in missing:
+        ctx.notes.append("transpiler not available, left out of the oracle search: " + m)
     names = sorted(pairs)
+    inst = {}
+    if not names:
+        ctx.notes.append("no parametric transpiler could be constructed: transpile oracle skipped")
+        return
+
+    def get(name):
+        if name not in inst or rng.random() < 0.1:
+            inst[name] = (pairs[name][0](), pairs[name][1]())
+        return inst[name]
+
     while n < min_cases or time.time() - t0 < budget_s:
         n += 1
         if n > min_cases * 40:
             break
         real = Real()
         ops, _ = gen_history(rng, real, rng.randint(3, 10), mode="oracle")
-        cands = [h for h, c in enumerate(real.circs) if c.parameter_count > 0 and c.qubit_count <= 3]
+        cands = [h for h, c in enumerate(real.circs) if c.parameter_count > 0 and c.qubit_count <= 4]
         if not cands:
             continue
         h = rng.choice(cands)
         c = real.circs[h]
-        chosen = [rng.choice(names) for _ in range(rng.choice([1, 1, 2, 3]))]
-        pts = [pairs[x][0](real) for x in chosen]
-        that = pts[0] if len(pts) == 1 else T.ParametricSequentialTranspiler(pts)
-        tn = T.SequentialTranspiler([pairs[x][1]() for x in chosen])
-        ctx.count("oracle_transpilers", "+".join(chosen) if len(chosen) == 1 else "sequential")
+        core = [x for x in ("rx", "ry", "pauli") if x in pairs] or names
+        chosen = [rng.choice(core) if rng.random() < 0.3 else rng.choice(names) for _ in range(rng.choice([1, 1, 2, 3]))]
+        pts = [get(x)[0] for x in chosen]
+        nest = rng.randrange(3)
+        if len(pts) == 1 and nest == 0:
+            that = pts[0]
+        elif nest < 2 or len(pts) < 2:
+            that = T.ParametricSequentialTranspiler(pts if rng.random() < 0.5 else tuple(pts))
+        else:
+            that = T.ParametricSequentialTranspiler([T.ParametricSequentialTranspiler(pts[:1]), T.ParametricSequentialTranspiler(pts[1:])])
+        tn = T.SequentialTranspiler([get(x)[1] for x in chosen])
+        may_reject = any(pairs[x][2] for x in chosen)
+        ctx.count("oracle_transpilers", chosen[0].split("(")[0] if len(chosen) == 1 else "sequential")
         hist = {"ops": [enc_op(o) for o in ops], "circuit": h, "transpilers": chosen}
+        frozen = rng.random() < 0.35
+        arg = c.freeze() if frozen else c
+        hist["input"] = "circuit.freeze()" if frozen else "circuit"
+
+        def snap():
+            try:
+                o = real.obs_of(c)
+                return o[:5] + [sorted(o[5], key=repr)]
+            except Exception as e:  # noqa: BLE001
+                return ["err", type(e).__name__]
+
+        before = snap()
         try:
-            tc = that(c)
+            tc = that(arg)
         except Exception as e:  # noqa: BLE001
+            if may_reject and len(chosen) == 1:
+                # a wrapped transpiler that validates its output may reject: then it must reject one of the fixed segments
+                def rejects(seg):
+                    try:
+                        pairs[chosen[0]][1]()(seg)
+                        return False
+                    except Exception:  # noqa: BLE001
+                        return True
+                try:
+                    legit = any(rejects(sg) for sg in fixed_segments(c))
+                except Exception:  # noqa: BLE001
+                    legit = False
+                if legit:
+                    ctx.count("oracle_transpilers", "rejected-segment")
+                    continue
+            elif may_reject:
+                continue  # a later stage sees the output of the earlier ones: no independent opinion
             ctx.witness("transpile-raises:" + chosen[0], f"parametric transpiler raised {type(e).__name__}: {e}", hist)
+            continue
+        after = snap()
+        if after != before:
+            ctx.witness("transpile-mutates-input:" + "+".join(chosen), f"the transpiled circuit changed from {before} to {after}", hist)
             continue
         ip, tp = list(c.param_mapping.in_params), list(tc.param_mapping.in_params)
         if len(ip) != len(tp) or any(a != b for a, b in zip(ip, tp)) or tc.parameter_count != c.parameter_count:
             ctx.witness("in-params:" + "+".join(chosen), "parametric transpiler changed the parameter list or its order", hist)
             continue
-        vals = [rng.uniform(-7, 7) for _ in range(c.parameter_count)]
+        if tc.qubit_count != c.qubit_count:
+            ctx.witness("in-params:" + "+".join(chosen), f"qubit_count {c.qubit_count} became {tc.qubit_count}", hist)
+            continue
         try:
-            a = tc.bind_parameters(vals)
+            f0, f1 = gate_functions(real, c), gate_functions(real, tc)
+        except Exception as e:  # noqa: BLE001
+            f0, f1 = "functions of the input", f"raised {type(e).__name__}"
+        if f0 != f1:
+            ctx.witness("transpile-functions:" + "+".join(chosen), f"the linear functions of the parametric gates (in gate order) "
+                        f"changed from {f0} to {f1}", hist)
+            continue
+        vals = [rng.uniform(-7, 7) for _ in range(c.parameter_count)]
+        if len(set(map(repr, ip))) != len(ip) or len({real.pid(p_) if p_ != real.CONST else 0 for p_ in ip}) != len(ip):
+            # a repeated entry of in_params (known finding): the same value for the same parameter
+            byp = {}
+            vals = [byp.setdefault(repr(real.pid(p_)), v) for p_, v in zip(ip, vals)]
+        try:
+            a = (tc.freeze() if rng.random() < 0.3 else tc).bind_parameters(vals)
             b0 = c.bind_parameters(vals)
-            b = tn(QuantumCircuit(c.qubit_count, gates=list(b0.gates)))
             ua = dense.circuit_unitary(c.qubit_count, a.gates)
-            ub = dense.circuit_unitary(c.qubit_count, b.gates)
             u0 = dense.circuit_unitary(c.qubit_count, b0.gates)
         except Exception as e:  # noqa: BLE001
             ctx.witness("transpile-bind-raises:" + chosen[0], f"{type(e).__name__}: {e}", dict(hist, values=vals))
             continue
-        d = max(dense.phase_dist(ua, ub), dense.phase_dist(ua, u0))
+        d = dense.phase_dist(ua, u0)
+        try:
+            b = tn(QuantumCircuit(c.qubit_count, gates=list(b0.gates)))
+            ub = dense.circuit_unitary(c.qubit_count, b.gates)
+            d = max(d, dense.phase_dist(ua, ub))
+        except Exception as e:  # noqa: BLE001
+            if not may_reject:
+                ctx.witness("transpile-bind-raises:" + chosen[0], f"{type(e).__name__}: {e}", dict(hist, values=vals))
+                continue
         worst = max(worst, d)
         if d > 1e-7:
             ctx.witness("transpile-bind:" + "+".join(chosen), f"bind∘T̂ and T∘bind differ by {d:.3g} up to phase", dict(hist, values=vals))
@@ -1020,6 +1582,330 @@ def oracle_transpile(ctx: Ctx, budget_s: float, min_cases: int):
     o["transpile_cases"] = n
     o["worst_phase_dist"] = worst
     ctx.evaluations += n
+
+
+# ---------------------------------------------------------------------------------------------
+# (C) LinearParameterMapping used directly (public constructor / with_data_updated / combine / mapper / seq_mapper /
+#     is_trivial_mapping) against a restatement with exact fractions
+# ---------------------------------------------------------------------------------------------
+def _spec_eval(fn, vals):
+    """fn: ('P', i) | ('F', {i | 'C': Fraction}); vals: list of Fractions"""
+    if fn[0] == "P":
+        return vals[fn[1]]
+    return sum((c * (Fraction(1) if k == "C" else vals[k]) for k, c in fn[1].items()), Fraction(0))
+
+
+def _spec_trivial(kin, fns):
+    """True / False / None (no opinion: a function that is the constant 1 alone)"""
+    if any(f[0] == "F" and list(f[1].items()) == [("C", Fraction(1))] for f in fns):
+        return None
+    if kin != len(fns):
+        return False
+    used = []
+    for f in fns:
+        if f[0] == "P":
+            k = f[1]
+        elif len(f[1]) == 1 and "C" not in f[1] and list(f[1].values()) == [Fraction(1)]:
+            k = next(iter(f[1]))
+        else:
+            return False
+        if k in used:
+            return False
+        used.append(k)
+    return True
+
+
+def _rnd_fn(rng, kin, allow_p=True):
+    if kin and allow_p and rng.random() < 0.3:
+        return ("P", rng.randrange(kin))
+    keys = [k for k in list(range(kin)) + ["C"] if rng.random() < 0.5][:3]
+    d = {}
+    for k in keys:
+        c = rnd_frac(rng, small=True)
+        d[k] = c if c != 0 else Fraction(1)
+    return ("F", d)
+
+
+def check_mapping(m, ins, outs, fns, rng, label):
+    """list of discrepancies between the real mapping object `m` and (ins, outs, fns)"""
+    from quri_parts.circuit import CONST
+
+    bad = []
+    try:
+        gi, go = list(m.in_params), list(m.out_params)
+        if len(gi) != len(ins) or any(a != b for a, b in zip(gi, ins)):
+            bad.append(f"{label}: in_params are not the {len(ins)} given parameters in the given order (got {len(gi)})")
+        if len(go) != len(outs) or any(a != b for a, b in zip(go, outs)):
+            bad.append(f"{label}: out_params are not the {len(outs)} given parameters in the given order (got {len(go)})")
+        if bad:
+            return bad
+        keys = list(m.mapping.keys())
+        if len(keys) != len(outs) or any(not any(k == o for k in keys) for o in outs):
+            bad.append(f"{label}: mapping has {len(keys)} keys, expected exactly the {len(outs)} output parameters")
+            return bad
+        vals = [rnd_frac(rng) for _ in ins]
+        fv = [float(v) for v in vals]
+        want = [_spec_eval(f, vals) for f in fns]
+        extra = {CONST: 5.0} if rng.random() < 0.2 else {}  # a caller-supplied value for CONST is not a parameter value
+        d = m.mapper({**dict(zip(ins, fv)), **extra})
+        got = [Fraction(d[o]) for o in outs]
+        if got != want or len(d) != len(outs):
+            bad.append(f"{label}: mapper at {fv} gives {[str(x) for x in got]} ({len(d)} entries), expected {[str(x) for x in want]}")
+        form = tuple(fv) if rng.random() < 0.5 else list(fv)
+        got = [Fraction(x) for x in m.seq_mapper(form)]
+        if got != want:
+            bad.append(f"{label}: seq_mapper at {fv} gives {[str(x) for x in got]}, expected {[str(x) for x in want]}")
+        for wrong in (fv + [1.0], fv[:-1]):
+            if len(wrong) == len(fv):
+                continue
+            try:
+                m.seq_mapper(wrong)
+                bad.append(f"{label}: seq_mapper accepted {len(wrong)} values for {len(fv)} parameters")
+            except ValueError:
+                pass
+        t = _spec_trivial(len(ins), fns)
+        if t is not None and bool(m.is_trivial_mapping) != t:
+            bad.append(f"{label}: is_trivial_mapping is {m.is_trivial_mapping}, expected {t}")
+        # get_derivatives: one mapping per input parameter, over the same parameters, holding only constants — the
+        # coefficient of that parameter in every function that mentions it (a function that does not mention it may be
+        # left out or be zero)
+        ds = list(m.get_derivatives())
+        if len(ds) != len(ins):
+            bad.append(f"{label}: get_derivatives() has {len(ds)} entries for {len(ins)} input parameters")
+        for i, dm in enumerate(ds[: len(ins)]):
+            if len(dm.in_params) != len(ins) or len(dm.out_params) != len(outs):
+                bad.append(f"{label}: derivative {i} has {len(dm.in_params)} in / {len(dm.out_params)} out parameters")
+                break
+            for o, f in zip(outs, fns):
+                coef = (Fraction(1) if f[1] == i else Fraction(0)) if f[0] == "P" else f[1].get(i, Fraction(0))
+                ent = dm.mapping.get(o)
+                if ent is None:
+                    got_c = Fraction(0)
+                elif hasattr(ent, "items"):
+                    if any(k != CONST for k in ent):
+                        got_c = "a non-constant function"
+                    else:
+                        got_c = sum((Fraction(x) for x in ent.values()), Fraction(0))
+                else:
+                    got_c = "a bare parameter"
+                if got_c != coef:
+                    bad.append(f"{label}: d(output {outs.index(o)})/d(input {i}) is {got_c}, expected {coef}")
+                    break
+    except Exception as e:  # noqa: BLE001
+        bad.append(f"{label}: raised {type(e).__name__}: {e}")
+    return bad
+
+
+def oracle_mapping_api(ctx: Ctx, cases: int):
+    from quri_parts.circuit import CONST, LinearParameterMapping, Parameter
+
+    rng = ctx.rng
+
+    def build(fns, ins, outs):
+        """caller-side dictionaries for the functions (returned so that they can be altered after the call)"""
+        top, inner = {}, []
+        for o, f in zip(outs, fns):
+            if f[0] == "P":
+                top[o] = ins[f[1]]
+            else:
+                d = {(CONST if k == "C" else ins[k]): (int(c) if c.denominator == 1 and rng.random() < 0.4 else float(c))
+                     for k, c in f[1].items()}
+                inner.append(d)
+                top[o] = d
+        return top, inner
+
+    def spoil(top, inner, *lists):
+        for d in inner:
+            for k in list(d):
+                d[k] = 99.0
+            d[Parameter("late")] = 1.0
+        top[Parameter("late-out")] = {CONST: 1.0}
+        for x in lists:
+            if isinstance(x, list):
+                x.append(Parameter("late"))
+
+    for i in range(cases):
+        kin = rng.randint(0, 4)
+        mode = rng.choice(["random", "random", "perm", "identity", "near-trivial"])
+        ins = [Parameter("p") for _ in range(kin)]
+        if mode == "random":
+            fns = [_rnd_fn(rng, kin) for _ in range(rng.randint(0, 4))]
+        else:
+            perm = list(range(kin))
+            if mode != "identity":
+                rng.shuffle(perm)
+            fns = [("P", k) if rng.random() < 0.5 else ("F", {k: Fraction(1)}) for k in perm]
+            if mode == "near-trivial" and fns:
+                j = rng.randrange(len(fns))
+                fns[j] = rng.choice([("F", {perm[j]: Fraction(1), "C": Fraction(1, 2)}), ("F", {perm[j]: Fraction(-1)}),
+                                     ("P", perm[(j + 1) % len(perm)]), ("F", {perm[j]: Fraction(2)})])
+        outs = [Parameter("") for _ in fns]
+
+        def show(fs):
+            return [[f[0], f[1] if f[0] == "P" else {str(k): str(c) for k, c in f[1].items()}] for f in fs]
+
+        desc = {"in_params": kin, "functions (keys: input positions / C)": show(fns)}
+        ctx.count("mapping_api", mode)
+        top, inner = build(fns, ins, outs)
+        in_c = list(ins) if rng.random() < 0.5 else tuple(ins)
+        out_c = list(outs) if rng.random() < 0.5 else tuple(outs)
+        try:
+            x = rng.random()
+            if x < 0.4:
+                m = LinearParameterMapping(in_c, out_c, top)
+                how = "LinearParameterMapping(in, out, mapping)"
+            elif x < 0.7:
+                m = LinearParameterMapping(in_params=in_c, out_params=out_c, mapping=top)
+                how = "LinearParameterMapping(in_params=, out_params=, mapping=)"
+            else:
+                m = LinearParameterMapping().with_data_updated(in_params_addition=in_c, out_params_addition=out_c, mapping_update=top)
+                how = "LinearParameterMapping().with_data_updated(...)"
+            spoil(top, inner, in_c, out_c)  # the caller's containers are altered after the call
+            bad = check_mapping(m, ins, outs, fns, rng, how + ", caller's containers altered afterwards")
+            # with_data_updated: new object, old one as before
+            k2 = rng.randint(0, 2)
+            ins2 = ins + [Parameter("p") for _ in range(k2)]
+            fns2 = fns + [_rnd_fn(rng, len(ins2)) for _ in range(rng.randint(0, 2))]
+            outs2 = outs + [Parameter("") for _ in fns2[len(fns):]]
+            top2, inner2 = build(fns2[len(fns):], ins2, outs2[len(outs):])
+            desc["with_data_updated"] = {"in_params_addition": k2, "added functions": show(fns2[len(fns):])}
+            add_in = ins2[kin:] if rng.random() < 0.5 else tuple(ins2[kin:])
+            m2 = m.with_data_updated(in_params_addition=add_in, out_params_addition=outs2[len(outs):], mapping_update=top2)
+            spoil(top2, inner2, add_in)
+            if not bad:
+                bad = check_mapping(m2, ins2, outs2, fns2, rng, how + " then with_data_updated")
+            if not bad:
+                bad = check_mapping(m, ins, outs, fns, rng, how + " (the object with_data_updated was called on)")
+            # combine with a mapping over other parameters
+            kin3 = rng.randint(0, 2)
+            ins3 = [Parameter("p") for _ in range(kin3)]
+            fns3 = [_rnd_fn(rng, kin3) for _ in range(rng.randint(0, 2))]
+            outs3 = [Parameter("") for _ in fns3]
+            top3, _ = build(fns3, ins3, outs3)
+            desc["combine(other)"] = {"in_params": kin3, "functions": show(fns3)}
+            m3 = LinearParameterMapping(ins3, outs3, top3)
+            mc = m2.combine(m3)
+
+            def shift(f):  # parameter positions of the second operand follow those of the first
+                if f[0] == "P":
+                    return ("P", f[1] + len(ins2))
+                return ("F", {(k if k == "C" else k + len(ins2)): c for k, c in f[1].items()})
+
+            if not bad:
+                bad = check_mapping(mc, ins2 + ins3, outs2 + outs3, fns2 + [shift(f) for f in fns3], rng, how + " … combine(other)")
+            if not bad:
+                bad = check_mapping(m3, ins3, outs3, fns3, rng, "the argument of combine, afterwards")
+        except Exception as e:  # noqa: BLE001
+            bad = [f"raised {type(e).__name__}: {e}"]
+        for b in bad[:1]:
+            ctx.witness("mapping-api", b[:900], desc, None)
+    ctx.evaluations += cases
+    ctx.extra.setdefault("oracle", {})["mapping_api_cases"] = cases
+
+
+# ---------------------------------------------------------------------------------------------
+# (D) fixed entry-point cases that the random histories do not draw
+# ---------------------------------------------------------------------------------------------
+def fixed_api_checks(ctx: Ctx):
+    import quri_parts.circuit.transpile as T
+    from oracle import dense
+    from quri_parts.circuit import CONST, LinearMappedParametricQuantumCircuit, ParametricQuantumCircuit, QuantumCircuit, gates
+
+    def run(f):
+        try:
+            return ("ok", f())
+        except Exception as e:  # noqa: BLE001
+            return ("err", type(e).__name__)
+
+    # 1. extend / + with a parametric circuit whose parameter mapping is not a LinearParameterMapping: rejected, nothing changes
+    from quri_parts.circuit import ImmutableLinearMappedParametricQuantumCircuit as _Imm
+
+    class Foreign(_Imm):
+        """a parametric circuit (every protocol member inherited) whose parameter mapping is of an unknown type"""
+
+        @property
+        def param_mapping(self):
+            class M:
+                in_params = ()
+                out_params = ()
+                mapping = {}
+            return M()
+
+    try:
+        c = LinearMappedParametricQuantumCircuit(2)
+        x = c.add_parameter("x")
+        c.add_ParametricRX_gate(0, {x: 2.0})
+        other = LinearMappedParametricQuantumCircuit(2)
+        y = other.add_parameter("y")
+        other.add_ParametricRY_gate(1, y)
+        st = run(lambda: c.extend(Foreign(other)))
+        state = (c.parameter_count, len(c.gates))
+        ctx.count("fixed_api", "foreign-mapping-type")
+        if st[0] == "ok" or state != (1, 1):
+            ctx.witness("foreign-mapping-type", f"extend with a parametric circuit whose param_mapping is not a LinearParameterMapping: "
+                        f"{st}; (parameter_count, gate count) afterwards {state}, expected a rejection and (1, 1)",
+                        {"case": "LinearMapped(2) with RX(2x) .extend(object forwarding to a LinearMapped circuit but with a foreign param_mapping)"})
+        st = run(lambda: c + Foreign(other))
+        if st[0] == "ok":
+            ctx.witness("foreign-mapping-type", f"`+` with such a circuit returned {type(st[1]).__name__} instead of being rejected",
+                        {"case": "c + Foreign(other)"})
+    except Exception as e:  # noqa: BLE001 — building x = add_parameter(); RX(2x); y; RY(y) must succeed
+        ctx.witness("fixed-case-raises", f"a valid construction raised {type(e).__name__}: {e}",
+                    {"case": "c = LinearMapped(2); x = c.add_parameter('x'); c.add_ParametricRX_gate(0, {x: 2.0}); "
+                             "other = LinearMapped(2); y = other.add_parameter('y'); other.add_ParametricRY_gate(1, y)"})
+
+    # 2. Pauli ids outside {1,2,3}: accepted at construction; decomposing such a rotation is rejected by both T̂ and T
+    for bad_id in (0, 4):
+        for mk in ("L", "P"):
+            ctx.count("fixed_api", "pauli-id-out-of-range")
+            if mk == "L":
+                pc = LinearMappedParametricQuantumCircuit(2)
+                a = pc.add_parameters("a")[0]
+                s0 = run(lambda: pc.add_ParametricPauliRotation_gate([0, 1], [3, bad_id], {a: 1.0, CONST: 0.5}))
+            else:
+                pc = ParametricQuantumCircuit(2)
+                s0 = run(lambda: pc.add_ParametricPauliRotation_gate([0, 1], [3, bad_id]))
+            if s0[0] != "ok":
+                continue
+            hat = run(lambda: T.ParametricPauliRotationDecomposeTranspiler()(pc))
+            bound = run(lambda: pc.bind_parameters([0.25]))
+            if bound[0] != "ok":
+                continue
+            plain = run(lambda: T.PauliRotationDecomposeTranspiler()(QuantumCircuit(2, gates=list(bound[1].gates))))
+            if (hat[0] == "ok") != (plain[0] == "ok"):
+                ctx.witness("pauli-id-out-of-range", f"ParametricPauliRotation with pauli id {bad_id}: parametric decomposition "
+                            f"{hat[0] if hat[0] == 'ok' else hat}, non-parametric decomposition of the bound circuit "
+                            f"{plain[0] if plain[0] == 'ok' else plain}", {"pauli_ids": [3, bad_id], "circuit": mk})
+
+    # 3. a circuit with classical bits (no measurement): transpilers and binding still commute
+    for name, mk_hat, mk in (("rx", T.ParametricRX2RZHTranspiler, T.RX2RZHTranspiler), ("ry", T.ParametricRY2RZHTranspiler, T.RY2RZHTranspiler),
+                             ("pauli", T.ParametricPauliRotationDecomposeTranspiler, T.PauliRotationDecomposeTranspiler),
+                             ("w.fuse", lambda: T.ParametricTranspiler(T.FuseRotationTranspiler()), T.FuseRotationTranspiler)):
+        ctx.count("fixed_api", "cbit-circuit")
+        try:
+            cc = LinearMappedParametricQuantumCircuit(3, 2)
+            u, v = cc.add_parameters("u", "v")
+            cc.add_H_gate(0)
+            cc.add_ParametricRX_gate(0, {u: 0.5, v: -1.0})
+            cc.add_RZ_gate(1, 0.375)
+            cc.add_RZ_gate(1, 0.25)
+            cc.add_ParametricRY_gate(1, v)
+            cc.add_ParametricPauliRotation_gate((2, 0, 1), (2, 1, 3), {u: 1.0, CONST: 0.125})
+            cc.add_CNOT_gate(2, 1)
+            tc = mk_hat()(cc)
+            vals = [0.75, -1.5]
+            ua = dense.circuit_unitary(3, tc.bind_parameters(vals).gates)
+            b0 = cc.bind_parameters(vals)
+            ub = dense.circuit_unitary(3, mk()(QuantumCircuit(3, gates=list(b0.gates))).gates)
+            u0 = dense.circuit_unitary(3, b0.gates)
+            d = max(dense.phase_dist(ua, ub), dense.phase_dist(ua, u0))
+            ip = list(tc.param_mapping.in_params)
+            if d > 1e-7 or len(ip) != 2 or ip[0] != u or ip[1] != v:
+                ctx.witness("transpile-bind:" + name, f"circuit with cbit_count=2: bind∘T̂ and T∘bind differ by {d:.3g} / in_params {ip}",
+                            {"case": "LinearMapped(3, cbit_count=2): H0 PRX0(u/2-v) RZ1 RZ1 PRY1(v) PPauliRot(2,0,1;Y,X,Z)(u+1/8) CNOT(2,1)", "values": vals})
+        except Exception as e:  # noqa: BLE001
+            ctx.witness("transpile-raises:" + name, f"circuit with cbit_count=2: {type(e).__name__}: {e}", {"case": "LinearMapped(3, cbit_count=2)"})
+    ctx.evaluations += 13
 
 
 def replay_f6(ctx: Ctx):
@@ -1055,7 +1941,7 @@ def run_replay(ctx: Ctx, path: str):
     for x in d.get("disagreements", []):
         inp = x.get("input", {})
         if "ops" in inp:
-            batch.append((inp["ops"], inp.get("queries", [])))
+            batch.append((inp["ops"], inp.get("queries", []), inp.get("entry_point_variant_seed")))
     compare_batch(ctx, batch, "replay")
     from oracle import c10ref
 
@@ -1063,7 +1949,8 @@ def run_replay(ctx: Ctx, path: str):
         inp = w.get("input", {})
         if "ops" in inp and "transpilers" not in inp:
             try:
-                check_against_reference(ctx, c10ref, [dec_op(s) for s in inp["ops"]], ctx.rng)
+                check_against_reference(ctx, c10ref, [dec_op(s) for s in inp["ops"]], ctx.rng, probe_p=1.0,
+                                        vseed=inp.get("entry_point_variant_seed"))
             except Exception as e:  # noqa: BLE001
                 ctx.notes.append(f"replay of witness failed: {e}")
 
@@ -1072,8 +1959,19 @@ def run(ctx: Ctx, replay=None) -> int:
     ctx.rule = ("case = one operation history (new / add_parameters / add_gate / add_Parametric*_gate / extend / + / radd / "
                 "parametric transpilers) plus queries (observation of in/out params, mapping and raw gate list with parameter "
                 "identities, bind list/dict, seq_mapper, is_trivial_mapping, parameter_count); real objects vs Lean model, "
-                "compared exactly after renaming parameter identities by first appearance; distinct = distinct request lines "
-                "containing at least one parametric gate and one combining/transpiling operation")
+                "compared exactly after renaming parameter identities by first appearance; most histories are run a second "
+                "time through equivalent public entry points / argument forms (VariantReal: aliases, explicit optional "
+                "arguments, add_parameter, add_<Name>_gate, add_gate(g, index), keyword arguments, Mapping/tuple/numpy/int "
+                "containers, +=, combine, frozen operands, queries on freeze()/get_mutable_copy(), mutation redirected to a "
+                "mutable copy, freeze-then-mutate) against the same model answer; distinct = distinct request lines "
+                "(× variant seed) containing at least one parametric gate and one combining/transpiling operation. "
+                "Oracles: (A) reference semantics incl. add_gate at a position, bindings interleaved with mutations, three "
+                "bindings per circuit in different forms, gates/depth; (B) transpile/bind commutation for the three rewriting "
+                "transpilers and ParametricTranspiler around every circuit transpiler of transpile/gateset.py and the generic "
+                "combinators, reused transpiler objects, frozen inputs, functions of the parametric gates kept, input "
+                "untouched; (C) LinearParameterMapping used directly (constructor / with_data_updated / combine / mapper / "
+                "seq_mapper / is_trivial_mapping / get_derivatives, caller containers altered afterwards); (D) fixed cases: "
+                "foreign mapping type rejected, Pauli ids outside 1..3, circuits with classical bits")
     ctx.trusted = TRUSTED
     ctx.assumptions = [
         "coefficients and parameter values are dyadic rationals of small height, so Python's float arithmetic is exact",
@@ -1102,6 +2000,8 @@ def run(ctx: Ctx, replay=None) -> int:
         ctx.search_budget_s = ctx.n(8, 90) * scale * 2
         oracle_bind(ctx, ctx.n(8, 90) * scale, ctx.n(150, 3000))
         oracle_transpile(ctx, ctx.n(8, 90) * scale, ctx.n(120, 2500))
+        oracle_mapping_api(ctx, ctx.n(400, 6000) * scale)
+        fixed_api_checks(ctx)
     # the replay file keeps the first few witnesses: put the ones that are not the known F6 shape first
     ctx.witnesses.sort(key=lambda w: w["key"] == KEY_F6)
     ctx.extra["witness_keys"] = sorted({w["key"] for w in ctx.witnesses})
